@@ -40,7 +40,7 @@ var statusKinds = []string{"status-overclaim"}
 // disconnection while the node is checking it.
 var raceKinds = []string{"big-hangup"}
 
-const bigTxSize = 4 << 20
+const bigTxSize = 2 << 20
 
 func allKinds() []string {
 	var k []string
@@ -177,7 +177,7 @@ func makePlan(c *chain, kind string, h int64) *plan {
 		p.span = []int64{h, h + 1}
 		p.resp[h] = b
 		p.resp[h+1] = c.genuine(h + 1)
-		p.hangup = 250 * time.Millisecond
+		p.hangup = 130 * time.Millisecond
 		return p
 	case isIn(bodyKinds, kind):
 		if h > chainLen-1 {
